@@ -1,4 +1,5 @@
 import GoflowModel.Contact.Model
+import GoflowModel.Gen.Reeval
 /-!
 # C06 — Query-based group membership always matches the contact
 
@@ -165,5 +166,101 @@ theorem reevaluate_modified_iff_event (isQuery m : Nat → Bool) (qs : List Nat)
   unfold reevaluate
   simp only
   split <;> split <;> simp
+
+/-! ## Every hand-back
+
+What the engine does to the contact in one call (`NewSession` / `Resume`), as far as groups are
+concerned: the trigger or resume changes the contact in some way, **then the groups are
+re-evaluated** (`session.start`, `session.tryToResume`: unconditional calls, pinned below from the
+source); then any number of modifiers are applied by actions, each through `modifiers.Apply`, which
+**re-evaluates when the modifier reports a change** — and a modifier that reports no change has not
+changed the contact (C03).  `M c g` is what group `g`'s query says of contact `c`
+(`Group.CheckQueryBasedMembership`: false for a contact that is not active); queries cannot refer to
+group membership itself (`group` is not allowed in the query of a group), so changing the groups
+does not change `M`. -/
+
+/-- **The re-evaluation sites are the ones `handBack` assumes** (census of flows/** regenerated from the
+source on every run): `start` re-evaluates unconditionally right after the trigger initialised the
+session; `tryToResume` unconditionally right after `resume.Apply`; `visitNode` after a trigger
+initialised a run (a message trigger sets `last_seen_on`); `modifiers.Apply` whenever the modifier
+reported a change; the two remaining rows are the helpers themselves.  A re-evaluation that is moved
+under a condition, behind another statement or dropped changes this table. -/
+theorem reevaluation_sites_as_modelled :
+    Gen.Reeval.sites = [
+      ("flows/engine/session.go", "start", [], "if err := s.trigger.Initialize(s, sprint.logEvent); err != nil { return sprint, err }"),
+      ("flows/engine/session.go", "tryToResume", [], "resume.Apply(waitingRun, logEvent)"),
+      ("flows/engine/session.go", "visitNode", ["if trigger != nil"], "if err := trigger.InitializeRun(run, logEvent); err != nil { return step, nil, \"\", nil }"),
+      ("flows/engine/session.go", "ensureQueryBasedGroups", [], "if s.contact == nil { return }"),
+      ("flows/modifiers/base.go", "Apply", ["if modified"], "-"),
+      ("flows/modifiers/base.go", "ReevaluateGroups", [], "-")] := by
+  decide
+
+/-- what one modifier application did: the contact after it and the flag it returned -/
+structure ModStep where
+  apply : Contact → Contact
+  modified : Contact → Bool
+
+/-- `modifiers.Apply` -/
+def applyMod (isQuery : Nat → Bool) (M : Contact → Nat → Bool) (qs : List Nat) (c : Contact) (s : ModStep) : Contact :=
+  if s.modified c then (reevaluate isQuery (M (s.apply c)) qs (s.apply c)).contact else s.apply c
+
+/-- one call of the engine: state change by the trigger / resume, re-evaluation, modifiers -/
+def handBack (isQuery : Nat → Bool) (M : Contact → Nat → Bool) (qs : List Nat) (stateChange : Contact → Contact)
+    (mods : List ModStep) (c : Contact) : Contact :=
+  mods.foldl (applyMod isQuery M qs) (reevaluate isQuery (M (stateChange c)) qs (stateChange c)).contact
+
+theorem reevaluate_only_groups (isQuery m : Nat → Bool) (qs : List Nat) (c : Contact) :
+    ∃ gs, (reevaluate isQuery m qs c).contact = { c with groups := gs } := by
+  unfold reevaluate
+  simp only
+  split <;> split <;> exact ⟨_, rfl⟩
+
+/-- the invariant for a contact of any status -/
+def Inv (M : Contact → Nat → Bool) (qs : List Nat) (c : Contact) : Prop := GroupInv (M c) qs c
+
+theorem reevaluate_inv (isQuery : Nat → Bool) (M : Contact → Nat → Bool) (qs : List Nat) (hq : qs.Nodup)
+    (hM : ∀ c gs, M { c with groups := gs } = M c) (hna : ∀ c g, c.status ≠ .active → M c g = false) (c : Contact) :
+    Inv M qs (reevaluate isQuery (M c) qs c).contact := by
+  obtain ⟨gs, hgs⟩ := reevaluate_only_groups isQuery (M c) qs c
+  unfold Inv
+  have hm : M (reevaluate isQuery (M c) qs c).contact = M c := by rw [hgs]; exact hM c gs
+  rw [hm]
+  by_cases ha : c.status = .active
+  · exact reevaluate_establishes_active isQuery (M c) qs hq c ha
+  · exact reevaluate_nonactive_inv isQuery (M c) qs c ha (fun g => hna c g ha)
+
+/-- **Whenever the engine hands the session back the invariant holds** — whatever the contact and
+its stored membership were, whatever the trigger or resume did to it, whatever modifiers the
+actions applied — provided a modifier that reports no change made none. -/
+theorem handBack_inv (isQuery : Nat → Bool) (M : Contact → Nat → Bool) (qs : List Nat) (hq : qs.Nodup)
+    (hM : ∀ c gs, M { c with groups := gs } = M c) (hna : ∀ c g, c.status ≠ .active → M c g = false)
+    (stateChange : Contact → Contact) (mods : List ModStep)
+    (hmods : ∀ s ∈ mods, ∀ c, s.modified c = false → s.apply c = c) (c : Contact) :
+    Inv M qs (handBack isQuery M qs stateChange mods c) := by
+  unfold handBack
+  have h0 := reevaluate_inv isQuery M qs hq hM hna (stateChange c)
+  generalize (reevaluate isQuery (M (stateChange c)) qs (stateChange c)).contact = c0 at h0
+  induction mods generalizing c0 with
+  | nil => simpa using h0
+  | cons s rest ih =>
+    simp only [List.foldl_cons]
+    apply ih (fun s' hs' => hmods s' (by simp [hs']))
+    unfold applyMod
+    cases hmod : s.modified c0 with
+    | true => simpa using reevaluate_inv isQuery M qs hq hM hna (s.apply c0)
+    | false =>
+      rw [hmods s (by simp) c0 hmod]
+      simpa using h0
+
+/-- the hypothesis about modifiers is needed: a modifier that changes the name without saying so
+leaves a name-based group wrong (the model's counterpart of a dropped re-evaluation) -/
+example :
+    let M : Contact → Nat → Bool := fun c _ => c.status == .active && c.name == ['B']
+    let c : Contact := ⟨['A'], 0, .active, 0, [], [], [], none, none⟩
+    let s : ModStep := ⟨fun c => { c with name := ['B'] }, fun _ => false⟩
+    ¬ Inv M [7] (handBack (fun _ => true) M [7] id [s] c) := by
+  intro M c s
+  unfold Inv GroupInv
+  decide
 
 end GoflowModel.Props.C06
